@@ -189,6 +189,11 @@ class C03(Prop):
             "{% include 'p' for xs, xs: ys %}", "{% include 'd/q' with x.k, x: u %}", "{% render 'p' with x, x: y %}",
             "{% render 'p' for xs as x, x: y %}", "{% render 'd/q' with y as x, x: 1 %}",
             "{% assign x = 'L' %}{% include 'p' with x as y, x: y %}{{ x }}",
+            # a later argument that names what an earlier argument of the same tag binds reads the OUTER variable
+            "{% with x: 'B', y: x %}{{ x }}{{ y }}{% endwith %}", "{% with y: x, x: 'B', z: x %}{{ x }}{{ y }}{{ z }}{% endwith %}",
+            "{% render 'p', x: 'B', y: x %}", "{% include 'p', x: 'B', y: x %}{{ x }}",
+            "{% macro m x, y %}{{ x }}{{ y }}{% endmacro %}{% call m x: 'B', y: x %}",
+            "{% assign x = 'L' %}{% with x: 'B', y: x %}{{ y }}{% with x: y, y: x %}{{ x }}{{ y }}{% endwith %}{% endwith %}",
         ):
             for loader in ("dict", "adict"):
                 yield {"kind": "diff", "src": src, "templates": parts,
